@@ -6,12 +6,12 @@ func init() {
 	registerProp(&Property{
 		ID: "C01", Kind: "necessary structural clauses",
 		Tech:  "effect summaries + CFG/SSA lints (iterator invalidation, shift bounds, normaliser order, recursion guards, iteration caps, inverse pairs)",
-		Rules: []string{"LANG-0", "ITER-1", "SHIFT-1", "ORD-4", "REC-1", "PROG-1", "CAP-1", "EFF-2", "ORD-2", "POST-1", "ACYC-1", "SPLIT-1"},
+		Rules: []string{"LANG-0", "ITER-1", "SHIFT-1", "ORD-4", "REC-1", "PROG-1", "CAP-1", "EFF-2", "ORD-2", "POST-1", "ACYC-1", "SPLIT-1", "PROG-2"},
 		Explanation: "Panic-freedom and termination of network simplex, weighted median, the compaction algorithms, the funnel and the spline fitter quantify over run-time values; no sound bound is in reach, so the check decides necessary clauses that are visible in the shape of the code: " +
 			"ITER-1 no loop removes the element it is visiting from the adjacency/edge list it iterates (skipped edges left the graph cyclic -> 'still cyclic' panic); SHIFT-1 no unbounded shift (layer masks collapsed at 64 layers -> matrix index panic); " +
-			"ORD-4 layers stay >= 0 after normalisation (negative layers index the layer slice); REC-1 every recursive traversal has a mark-and-test guard or a reviewed termination argument; PROG-1 the flag-guarded fix-point of the default positioner repeats only after strictly increasing a coordinate; CAP-1 the two documented iteration caps exist and depend on their options; " +
+			"ORD-4 layers stay >= 0 after normalisation (negative layers index the layer slice); REC-1 every recursive traversal has a mark-and-test guard or a reviewed termination argument; PROG-1 the flag-guarded fix-point of the default positioner repeats only after strictly increasing a coordinate; PROG-2 the repeat-while-improved exchange pass of the ordering phase asks for another pass only after a strict decrease of the crossing count (an equally good swap kept to leave local minima alternates for ever); CAP-1 the two documented iteration caps exist and depend on their options; " +
 			"EFF-2 + ORD-2 self-loops are out of all three lists while the pipeline runs and back afterwards, and every phase runs on a connected component in phase order; ACYC-1 the acyclicity test that lets phase 1 return early starts a search from every node (a missed cycle makes layering and positioning recurse for ever); POST-1 the layering phase builds the layer table on every path to a normal return (later phases index it unconditionally, also for one-node components); SPLIT-1 a component is cut from sets that hold the marks of one walk only (a component with another component's edges makes the phases index out of range). " +
-			"Not decided: explicit panic sites guarded by run-time preconditions, index/nil safety in general, termination of feasibleTree, transpose, placeBlock, the funnel loops and the predecessor walk in geom.Shortest, memory budgets.",
+			"Not decided: explicit panic sites guarded by run-time preconditions, index/nil safety in general, termination of feasibleTree, placeBlock, the funnel loops and the predecessor walk in geom.Shortest, memory budgets.",
 		Assumptions: []string{"clauses are necessary, not sufficient, for the property", "REC-1's reviewed table (5 functions) is correct"},
 	})
 	registerProp(&Property{
@@ -26,9 +26,9 @@ func init() {
 	registerProp(&Property{
 		ID: "C03", Kind: "necessary structural clauses (band clause sufficient with AFF-5)",
 		Tech:  "symbolic affine execution of the Y assignment, sibling-agreement on positioners, ownership table, reversal-guard dominance, running-extremum lint",
-		Rules: []string{"AFF-5", "EFF-3", "OWN-1", "PAIR-2", "EFF-1", "EFF-2", "ITER-1", "ORD-5", "ACYC-1", "AGG-1", "AFF-8", "ORD-4", "BAL-1"},
+		Rules: []string{"AFF-5", "EFF-3", "OWN-1", "PAIR-2", "EFF-1", "EFF-2", "ITER-1", "ORD-5", "ACYC-1", "AGG-1", "AFF-8", "ORD-4", "BAL-1", "DISP-1"},
 		Explanation: "AFF-5 (all nodes of a layer get one Y; the next band starts layer.H + LayerSpacing lower) and EFF-3 (every positioner makes layer.H the max node height) give the band clause for every input. OWN-1: Layer only changes in phase 2, so bands are the layering; PAIR-2 + EFF-1 + OWN-1: ArrowHeadStart == IsReversed, toggled only by Reverse; " +
-			"EFF-2 + ITER-1 the un-reverse pass visits every edge of g.Edges and flips exactly the flagged ones (a pass that iterates a list Reverse removes from skips edges: flagged but still downward); ORD-5 acyclic inputs are never reversed; AGG-1/AFF-8 longest-path layers are computed from the final maximum; ORD-4 layers stay >= 0; BAL-1 the vertical balancer moves a node only inside the window [max over in-edges of From.Layer + Delta, min over out-edges of To.Layer - Delta], computed from the current layers inside the moving loop (so no edge becomes flat or upward). Not decided: feasibility (span >= 1) of network simplex through tree construction and pivots, and of the horizontal balancer used by the NetworkSimplex positioner.",
+			"EFF-2 + ITER-1 the un-reverse pass visits every edge of g.Edges and flips exactly the flagged ones (a pass that iterates a list Reverse removes from skips edges: flagged but still downward); ORD-5 acyclic inputs are never reversed; AGG-1/AFF-8 longest-path layers are computed from the final maximum; ORD-4 layers stay >= 0; BAL-1 the vertical balancer moves a node only inside the window [max over in-edges of From.Layer + Delta, min over out-edges of To.Layer - Delta], computed from the current layers inside the moving loop (so no edge becomes flat or upward). DISP-1's exclusivity clause and EFF-3's every-path clause: the band heights are recorded on every path of every positioner (seeded change C03g returned from a single-column fast path before the loop that records them). Not decided: feasibility (span >= 1) of network simplex through tree construction and pivots, and of the horizontal balancer used by the NetworkSimplex positioner.",
 		Assumptions: []string{"floating-point sums are exact for the band clause up to rounding"},
 	})
 	registerProp(&Property{
@@ -42,17 +42,17 @@ func init() {
 	registerProp(&Property{
 		ID: "C05", Kind: "necessary structural clauses",
 		Tech:  "symbolic affine execution of the route anchors, SSA value-identity of the arrowhead flag, typed-AST output mapping, forward slice of the component shift",
-		Rules: []string{"AFF-1", "AFF-9", "PAIR-2", "PAIR-3", "PAIR-4", "FLOW-1", "DISP-1"},
+		Rules: []string{"AFF-1", "AFF-9", "PAIR-2", "PAIR-3", "PAIR-4", "FLOW-1", "DISP-1", "OPTS-1", "ORD-6"},
 		Explanation: "AFF-1: the first point of every non-flat route is (n.X + W/2, n.Y + H) of ns[0] and the last is (n.X + W/2, n.Y) of ns[len-1] for Straight, Polyline, Ortho and the 2-point spline; PAIR-2: flag = reversed, so after UnreverseEdges the flagged end is ToID; PAIR-3 output mapping; PAIR-4 route ends are real nodes; " +
-			"FLOW-1/AFF-6: points are shifted in x exactly like their nodes (the shift lands in the point stored in the output, not in a copy); AFF-9 end-control clause: every spline piece, MakeSpline's included, starts and ends at exactly the points it was given. Not decided: that ns[0] is the upper node on every input (depends on layering), fitted splines, finiteness.",
+			"FLOW-1/AFF-6: points are shifted in x exactly like their nodes (the shift lands in the point stored in the output, not in a copy); AFF-9 end-control clause: every spline piece, MakeSpline's included, starts and ends at exactly the points it was given. That the algorithm the caller selected is the one that runs: OPTS-1 (no other option stores an algorithm on the side) and ORD-6 (after the option loop nothing overwrites the options record - seeded change C14f let Layout replace the selected cycle breaker when another option was present). Not decided: that ns[0] is the upper node on every input (depends on layering), fitted splines, finiteness.",
 		Assumptions: []string{"layering is feasible (C03, undecided part)"},
 	})
 	registerProp(&Property{
 		ID: "C06", Core: []string{"AFF-2", "AFF-3"}, Kind: "necessary structural clauses",
 		Tech:  "symbolic affine execution of the routers (point-sequence shapes, orthogonality as shared coordinate expressions), SSA value-identity for spline joining",
-		Rules: []string{"AFF-2", "AFF-3", "AFF-9", "OWN-1", "PAIR-3", "FLOW-1", "DISP-1"},
+		Rules: []string{"AFF-2", "AFF-3", "AFF-9", "OWN-1", "PAIR-3", "FLOW-1", "DISP-1", "OPTS-1", "ORD-6"},
 		Explanation: "PAIR-3 + FLOW-1: the caller receives the router's point list itself - a plain copy (slices.Clone or a package helper that receives e.Points) whose only change is the component shift added to x; nothing is filtered, compacted or re-ordered on the way out (spline routes rely on repeated points at the joints). AFF-2: Straight yields exactly 2 points; Polyline yields [start, one point per inner route node at (n.X + W/2, n.Y + layerH/2), end]; Splines append 4-point pieces; AFF-3: within one orthogonal elbow consecutive points share an identical x or y expression and consecutive elbows share x; " +
-			"AFF-9: spline pieces join (shared split point and tangent, p0/p3 from the path ends, pieces emitted reversed while iterating backward); OWN-1: helper nodes keep zero size, so the bend x is the helper node's x in the output, and nothing but a router writes Points; DISP-1: the router that runs is the selected one for every graph with more than one node. Not decided: 'never upward' and 'no bend inside a node rectangle' (need C03/C04 numerically).",
+			"AFF-9: spline pieces join (shared split point and tangent, p0/p3 from the path ends, pieces emitted reversed while iterating backward); OWN-1: helper nodes keep zero size, so the bend x is the helper node's x in the output, and nothing but a router writes Points; DISP-1: the router that runs is the selected one for every graph with more than one node. That the algorithm the caller selected is the one that runs: OPTS-1 (no other option stores an algorithm on the side) and ORD-6 (after the option loop nothing overwrites the options record - seeded change C14f let Layout replace the selected cycle breaker when another option was present). Not decided: 'never upward' and 'no bend inside a node rectangle' (need C03/C04 numerically).",
 		Assumptions: []string{"flat (same-layer) edges are outside the decided shapes"},
 	})
 	registerProp(&Property{
@@ -85,17 +85,17 @@ func init() {
 	registerProp(&Property{
 		ID: "C10", Kind: "necessary structural clauses",
 		Tech:  "SSA dominance lint on cut values, normaliser-order rule, loop-cap recogniser, balancing-window recogniser, ownership table",
-		Rules: []string{"RECOMP-1", "OPT-1", "TIGHT-1", "ORD-4", "CAP-1", "BAL-1", "OWN-1", "DISP-1"},
+		Rules: []string{"RECOMP-1", "OPT-1", "TIGHT-1", "ORD-4", "CAP-1", "BAL-1", "OWN-1", "DISP-1", "OPTS-1", "ORD-6"},
 		Explanation: "RECOMP-1: cut values are a function of the current tree only (no read of a stale value); TIGHT-1: an edge enters the spanning tree only under slack == 0 or after the layers were shifted by its slack (the basis stays feasible); OPT-1: the pivot loop can stop (budget aside) only when a complete scan of the edge list finds no tree edge with negative cut value - the optimality criterion - and the enter edge is a strict minimum-slack candidate of a complete scan; ORD-4: the top band is 0 after balancing; CAP-1: the pivot loop honours the documented budget; OWN-1: Layer is not touched after phase 2; " +
-			"BAL-1: balancing moves only nodes whose move leaves total length unchanged (in-degree = out-degree) and only inside their feasible window. Not decided: optimality and feasibility of the pivot sequence; contiguity of bands.",
+			"BAL-1: balancing moves only nodes whose move leaves total length unchanged (in-degree = out-degree) and only inside their feasible window. That the algorithm the caller selected is the one that runs: OPTS-1 (no other option stores an algorithm on the side) and ORD-6 (after the option loop nothing overwrites the options record - seeded change C14f let Layout replace the selected cycle breaker when another option was present). Not decided: optimality and feasibility of the pivot sequence; contiguity of bands.",
 		Assumptions: []string{"clauses are necessary, not sufficient"},
 	})
 	registerProp(&Property{
 		ID: "C11", Kind: "sufficient modulo termination of the traversal",
 		Tech:  "symbolic recurrence extraction (height = max(1, child + Delta), Layer = final max - height) + running-extremum lint + recursion table",
-		Rules: []string{"AFF-8", "AGG-1", "REC-1", "DISP-1", "OPTS-1"},
+		Rules: []string{"AFF-8", "AGG-1", "REC-1", "DISP-1", "OPTS-1", "ORD-6"},
 		Explanation: "AFF-8: the height accumulator starts at the constant 1 and is updated as max(acc, child + Edge.Delta) over out-edges, and Node.Layer is stored as L - height with L the final value of the max-reduction over all heights (read after the traversal loop); AGG-1: no value derived from the still-growing maximum is stored during the traversal. " +
-			"AFF-8 also decides that a traversal is started from every node of the graph (a full, never-left-early loop over the node list or a same-length copy) and that only self-loops are left out of the maximum. Together these are the specification of longest-path layering; what remains is termination of the memoised traversal (REC-1 table entry: acyclicity after phase 1); nothing in the layerer's caller modifies Node.Layer after it has returned. DISP-1 and OPTS-1: the layerer that runs is the selected one (dispatch depends on the algorithm constant only; no other option stores a layering algorithm on the side). Not decided: that the drawn bands are these layers (C03's band clause) and the orientation it layers (C14's rules).",
+			"AFF-8 also decides that a traversal is started from every node of the graph (a full, never-left-early loop over the node list or a same-length copy) and that only self-loops are left out of the maximum. Together these are the specification of longest-path layering; what remains is termination of the memoised traversal (REC-1 table entry: acyclicity after phase 1); nothing in the layerer's caller modifies Node.Layer after it has returned. DISP-1 and OPTS-1: the layerer that runs is the selected one (dispatch depends on the algorithm constant only; no other option stores a layering algorithm on the side). ORD-6: after the option loop nothing overwrites the selected layering algorithm. Not decided: that the drawn bands are these layers (C03's band clause) and the orientation it layers (C14's rules).",
 		Assumptions: []string{"the graph is acyclic after phase 1"},
 	})
 	registerProp(&Property{
@@ -117,9 +117,9 @@ func init() {
 	registerProp(&Property{
 		ID: "C14", Kind: "necessary structural clauses",
 		Tech:  "CFG pairing of the DFS stack set, effect-summary iterator lint, inter-procedural dominance of the acyclicity test, Reverse contract",
-		Rules: []string{"PAIR-1", "ITER-1", "ORD-5", "EFF-1", "DISP-1"},
+		Rules: []string{"PAIR-1", "ITER-1", "ORD-5", "EFF-1", "DISP-1", "OPTS-1", "ORD-6"},
 		Explanation: "PAIR-1: only edges into the current DFS stack are collected (the stack set is marked before recursing and cleared before every return), and exactly the collected list is reversed; ITER-1: no breaker reverses an edge of the list it is iterating; " +
-			"DISP-1: when the depth-first breaker is selected it is the depth-first breaker that runs (no size- or shape-gated fallback to another algorithm); ORD-5: no reversal before the graph is known to be cyclic, except under an antiparallel witness; EFF-1: Reverse's contract. Not decided: minimality in the presence of the two-node pre-pass on multigraphs.",
+			"DISP-1: when the depth-first breaker is selected it is the depth-first breaker that runs (no size- or shape-gated fallback to another algorithm); ORD-5: no reversal before the graph is known to be cyclic, except under an antiparallel witness; EFF-1: Reverse's contract. That the algorithm the caller selected is the one that runs: OPTS-1 (no other option stores an algorithm on the side) and ORD-6 (after the option loop nothing overwrites the options record - seeded change C14f let Layout replace the selected cycle breaker when another option was present). Not decided: minimality in the presence of the two-node pre-pass on multigraphs.",
 		Assumptions: []string{"clauses are necessary, not sufficient"},
 	})
 	registerProp(&Property{
@@ -165,5 +165,14 @@ func init() {
 			"Not decided: termination of the fitter, that the containment test itself is exact (it rests on the polynomial root finder: numeric case analysis around epsilons), and the root finder.",
 		Assumptions: []string{"thin: decides the joining clause and the provenance of pieces only"},
 	})
-	naReasons["C19"] = "optimality and containment of a geometric shortest path over all real-valued corridors: the deciding facts (deque bounds, dual-graph connectivity, acyclic predecessor map, numeric orientation tests) are run-time values; no clause of the property is visible in the shape of the code, and no sound static bound is in reach of the available tooling"
+	registerProp(&Property{
+		ID: "C19", Core: []string{"FUN-1"}, Kind: "necessary structural clauses (vertex provenance, orientation of the result, symmetry of the funnel)",
+		Tech:  "typed-AST provenance scan of the triangulation, SSA first/last-element resolution on the router's returns, mirror-image comparison of the funnel's sibling cases",
+		Rules: []string{"TRI-1", "PATH-1", "FUN-1"},
+		Explanation: "Three clauses of the corridor router that are visible in the shape of the code. TRI-1: the special-cased triangulation computes no coordinate - every triangle vertex is a copy of rectangle coordinates (X from an X, Y from a Y), floats are only copied, selected and compared - so the funnel can bend only at corridor vertices, which is where a Euclidean shortest path bends. " +
+			"PATH-1: on every return the polyline lists the end point first and the start point last (the one-triangle shortcut by position, the accumulated path by its first append and the closing guard). " +
+			"FUN-1 (sibling cross-check): the left-chain and right-chain cases of the funnel, and the two wedge tests they call, are mirror images (front <-> back, < <-> > on queue indices, clockwise <-> counter-clockwise), and each case touches only its own end of the queue. " +
+			"Not decided: that the triangulation covers the corridor for every offset pattern (merge/split vertices on either chain), that the dual graph is connected and the diagonal list complete, the bounds of the queue, the treatment of collinear points when both cases make the same choice, optimality and containment themselves - these are facts about run-time values.",
+		Assumptions: []string{"thin: decides vertex provenance, result orientation and chain symmetry only; optimality and containment of the path are not decided"},
+	})
 }
